@@ -48,7 +48,7 @@ def content_pool(ctx, n):
             full.append(p)
     sparse = [[kv for kv in BASE if kv[0] != 'Gradient 1'], [kv for kv in BASE if kv[0] != 'Reservoir Depth'],
               [kv for kv in BASE if kv[0] in KEEP]]
-    for i in range(max(4, (2 * n) // 3)):
+    for i in range(max(4, n // 2)):
         src = full[2 + i % max(1, len(full) - 2)] if len(full) > 2 else BASE
         frac = rnd.choice([0.25, 0.5, 0.8])
         sparse.append([kv for kv in src if kv[0] in KEEP or rnd.random() > frac])
@@ -347,8 +347,8 @@ def geo_contents(s):
 
 
 def ensure_refs(refs, s):
-    refs.ensure(geo_contents(s))
-    refs.ensure_pairs(hip_pairs(s))
+    hipc = set(s.get('hip_contents', [])) & set(contents_used(s))
+    refs.ensure_pairs([('g', c) for c in geo_contents(s)] + [(k, c) for c in hipc for k in (1, 2)] + list(hip_pairs(s)))
 
 
 # ------------------------------------------------------------------------------------------------------------
@@ -434,8 +434,15 @@ def session_term(fn, fixed, session, result, refs):
     ids = geo_contents(session)
     d2c = refs.content_of_digest(ids)
     hipc = set(session.get('hip_contents', []))
-    canon = lambda c: c if c in hipc or refs.of(c)[0] != 'ret' else d2c[refs.of(c)[1]]   # noqa: E731
-    pairs = sorted(hip_pairs(session))
+    # contents with the same reference results are interchangeable: GEOPHIRES inputs by their GEOPHIRES result,
+    # HIP-RA inputs by their results under both HIP programs (when both references are known)
+    hclass = {}
+    for c in sorted(hipc & set(contents_used(session))):
+        sig = tuple(tuple(refs.ref[(k, refs.contents[c])][:2]) if (k, refs.contents[c]) in refs.ref else ('?', c) for k in (1, 2))
+        hclass.setdefault(sig, c)
+        hclass[c] = hclass[sig]
+    canon = lambda c: hclass.get(c, c) if c in hipc else (c if refs.of(c)[0] != 'ret' else d2c[refs.of(c)[1]])   # noqa: E731
+    pairs = sorted({(k, canon(c)) for k, c in hip_pairs(session)})
     okh = [(k, c) for k, c in pairs if refs.of(c, k)[0] == 'ret']
     hip_digest = {(k, refs.of(c, k)[1]): hipres(k, c) for k, c in reversed(okh)}
     ops, obs, origin = expand(session, result, d2c, canon, hip_digest)
